@@ -41,7 +41,31 @@ def crystal(name):
         return Atoms("SrTiO3", scaled_positions=[(0, 0, 0), (.5, .5, .5), (.5, .5, 0), (.5, 0, .5), (0, .5, .5)], cell=[a, a, a], pbc=True)
     if name == "ortho":
         return Atoms("AuCu", scaled_positions=[(0, 0, 0), (.5, .5, .37)], cell=[3.0, 3.6, 4.4], pbc=True)
+    if name == "Mg":  # hexagonal close packed (non-orthogonal cell)
+        return bulk("Mg")
+    if name == "graphite":
+        a, c = 2.46, 6.70
+        return Atoms("C4", scaled_positions=[(0, 0, 0), (1 / 3, 2 / 3, 0), (0, 0, .5), (2 / 3, 1 / 3, .5)],
+                     cell=[[a, 0, 0], [-a / 2, a * np.sqrt(3) / 2, 0], [0, 0, c]], pbc=True)
+    if name in ("Ccentred", "Acentred", "Bcentred"):  # base-centred orthorhombic host, two species
+        t = {"Ccentred": (.5, .5, 0), "Acentred": (0, .5, .5), "Bcentred": (.5, 0, .5)}[name]
+        basis = [(0.0, 0.0, 0.0, "Au"), (0.21, 0.33, 0.4, "Cu")]
+        pos = [((x + d[0]) % 1, (y + d[1]) % 1, (z + d[2]) % 1) for d in ((0, 0, 0), t) for x, y, z, _ in basis]
+        return Atoms([e for _ in range(2) for *_, e in basis], scaled_positions=pos, cell=[3.4, 3.9, 4.6], pbc=True)
     raise ValueError(name)
+
+
+def m_reference(hkl, cell, energy):
+    """M and g_z recomputed independently of abtem.bloch: g = hkl·(cell⁻¹)ᵀ, M = 1/√(1 + g_z λ)"""
+    from abtem.core.energy import energy2wavelength
+
+    gz = (np.asarray(hkl, dtype=float) @ np.linalg.inv(np.asarray(cell, dtype=float)).T)[:, 2]
+    return 1.0 / np.sqrt(1.0 + gz * energy2wavelength(energy)), gz
+
+
+def exceeds(x, tol) -> bool:
+    """NaN-safe `x > tol` (NaN counts as exceeding)"""
+    return not (float(x) <= tol)
 
 
 _SF = {}
@@ -53,7 +77,13 @@ def bloch(case):
     key = (case["crystal"], case["g_max"], case["sigma"], case.get("precision", "float32"))
     if key not in _SF:
         _SF[key] = StructureFactor(crystal(case["crystal"]), g_max=2 * case["g_max"], thermal_sigma=case["sigma"])
-    bw = BlochWaves(_SF[key], energy=case["energy"], sg_max=case["sg_max"], g_max=case["g_max"])
+    source = _SF[key]
+    if case.get("input") == "array-lazy":
+        source = source.build(lazy=True)
+    elif case.get("input") == "array-eager":
+        source = source.build(lazy=False)
+    bw = BlochWaves(source, energy=case["energy"], sg_max=case["sg_max"], g_max=case["g_max"],
+                    **({"centering": _SF[key].centering} if case.get("input") else {}))
     rx, ry = case["rot"]
     if rx or ry:
         bw = bw.rotate("x", rx, "y", ry)
@@ -140,7 +170,7 @@ class C26(Property):
                         cell=cell.tolist(), energy=energy, mode=mode)
             wl = energy2wavelength(energy)
             pref = energy2sigma(energy) / (kappa * energy2wavelength(energy) * np.pi)
-            M = calculate_M_matrix(np.array(sel), cell, energy)
+            M = m_reference(np.array(sel), cell, energy)[0]
             sg = excitation_errors(calculate_g_vec(np.array(sel), cell), energy)
 
             def check(out, case=case, vals=vals, cell=cell):
@@ -181,12 +211,12 @@ class C26(Property):
             scalar = rng.random() < 0.25
             ts = [rng.choice([0.0, 1.5, 10.0, 37.25, 120.0]) for _ in range(1 if scalar else rng.randint(1, 3))]
             v, C = np.linalg.eigh(A)
-            M = calculate_M_matrix(np.array(hkl), cell, energy)
+            M = m_reference(np.array(hkl), cell, energy)[0]
             wl = energy2wavelength(energy)
             case = dict(kind="dyn", hkl=hkl, cell=cell.tolist(), energy=energy, A=[[[z.real, z.imag] for z in row] for row in A.tolist()],
                         ts=ts, scalar=scalar)
 
-            def check(out, case=case, A=A, cell=cell, ts=ts, scalar=scalar, n=n):
+            def check(out, case=case, A=A, cell=cell, ts=ts, scalar=scalar, n=n, M=M):
                 impl = np.asarray(calculate_dynamical_scattering(A.copy(), np.array(case["hkl"]), cell, case["energy"], ts[0] if scalar else ts))
                 impl = impl.reshape(-1)
                 t = out.split()
@@ -200,6 +230,26 @@ class C26(Property):
             ask("dyn {} {} {} {} {} {} {}".format(
                 n, ";".join(f"{bits(z.real)},{bits(z.imag)}" for z in C.reshape(-1)), list_s(v, bits), list_s(M, bits), bits(wl),
                 list_s(ts, bits), i0), check)
+
+        # C'. calculate_M_matrix against the Float twin of the generated `mii`/`k0Of`, g_z recomputed here as hkl·(cell⁻¹)ᵀ
+        for _ in range(ctx.n(40, 400)):
+            cell = np.diag([rng.choice([3.0, 4.0, 5.5]) for _ in range(3)]) + (
+                np.array([[0, 0, 0.4], [0.3, 0, -0.3], [0.2, 0.1, 0]]) if rng.random() < 0.6 else 0)
+            hkl = [[rng.randint(-3, 3) for _ in range(3)] for _ in range(rng.randint(1, 4))]
+            energy = rng.choice([20e3, 60e3, 100e3, 200e3, 300e3])
+            gz = (np.array(hkl, dtype=float) @ np.linalg.inv(cell).T)[:, 2]
+            wl = energy2wavelength(energy)
+            impl_M = np.asarray(calculate_M_matrix(np.array(hkl), cell, energy), dtype=float)
+            for j in range(len(hkl)):
+                case = dict(kind="mii", hkl=hkl[j], cell=cell.tolist(), energy=energy)
+
+                def check(out, case=case, want=float(impl_M[j])):
+                    model = unbits(out.split()[1])
+                    ctx.agree("calculate_M_matrix (Float twin, independent g_z)", case, model, want, ok=abs(model - want) <= 1e-13 * abs(want))
+                    ctx.count("mii:" + ("gz=0" if case["hkl"][2] == 0 and abs(case["cell"][0][2]) + abs(case["cell"][1][2]) == 0 else "gz≠0"))
+                    ctx.case(case)
+
+                ask(f"mii {bits(gz[j])} {bits(wl)}", check)
 
         # D. eager ensemble assembly, traced: the per-orientation kernel is replaced by a tagging kernel inside this process, the
         #    real loop of BlochwaveEnsemble._calculate_diffraction_intensities runs unchanged
@@ -261,32 +311,53 @@ class C26(Property):
             self._oracle(ctx, case)
 
     def _ensemble_oracle(self, ctx: Ctx, case):
-        """a BlochwaveEnsemble over orientations: every member equals the individual BlochWaves run, lazy = eager"""
+        """a BlochwaveEnsemble over orientations: every member equals the individual BlochWaves run, lazy = eager.
+        `ry` may be a list (second series) or a number (fixed angle next to the series); `sg_edge` puts sg_max exactly on the
+        excitation error of a reflection (inclusive limit in both the member and the ensemble filter)."""
         base = dict(case, rot=[0.0, 0.0])
         ts = case["thicknesses"]
+        if case.get("sg_edge"):
+            from abtem.bloch.utils import excitation_errors
+            from abtem.core.energy import energy2wavelength
+
+            b0 = bloch(dict(base, sg_max=1.0))
+            allh = np.asarray(b0.structure_factor.hkl)
+            g = allh @ np.linalg.inv(np.asarray(b0.cell)).T
+            lam = energy2wavelength(case["energy"])
+            sg_member = np.abs(np.asarray(excitation_errors(g, case["energy"])))          # what the single-orientation filter compares
+            sg_mask = np.abs(-g[:, 2] - 0.5 * lam * (g ** 2).sum(-1))                      # what the ensemble mask compares (R = identity)
+            okc = (np.linalg.norm(g, axis=1) <= case["g_max"]) & (sg_member > 0.02) & (sg_member < 0.3) & (sg_member == sg_mask)
+            cand = np.sort(sg_member[okc])
+            if len(cand):
+                base["sg_max"] = float(cand[len(cand) // 3])
+        series_y = isinstance(case["ry"], list)
+        ry_arg = np.array(case["ry"]) if series_y else float(case["ry"])
         try:
-            ens = bloch(base).rotate("x", np.array(case["rx"]), "y", np.array(case["ry"]))
+            ens = bloch(base).rotate("x", np.array(case["rx"]), "y", ry_arg)
             dp = ens.calculate_diffraction_patterns(ts, lazy=False)
             E = np.asarray(dp.array, dtype=float)
             hkl = [tuple(int(x) for x in h) for h in dp.miller_indices]
         except Exception as e:  # noqa
-            ctx.violation("bloch-ensemble-call-raises", case, {"error": f"{type(e).__name__}: {e}"})
+            ctx.violation("bloch-ensemble-call-raises", case, {"error": f"{type(e).__name__}: {e}", "sg_max": base["sg_max"]})
             return
         try:
             L = np.asarray(ens.calculate_diffraction_patterns(ts, lazy=True).compute().array, dtype=float)
-            if L.shape != E.shape or np.abs(L - E).max() > 1e-5:
+            if L.shape != E.shape or exceeds(np.abs(L - E).max(), 1e-5):
                 ctx.violation("ensemble-lazy-differs-from-eager", case, {"max diff": float(np.abs(L - E).max()) if L.shape == E.shape else "shape"})
         except Exception as e:  # noqa
             ctx.violation("bloch-ensemble-lazy-call-raises", case, {"error": f"{type(e).__name__}: {e}"})
         worst = 0.0
         for i, rx in enumerate(case["rx"]):
-            for j, ry in enumerate(case["ry"]):
+            for j, ry in enumerate(case["ry"] if series_y else [case["ry"]]):
                 b1 = bloch(base).rotate("x", float(rx), "y", float(ry))
                 I = np.asarray(b1.calculate_diffraction_patterns(ts, lazy=False).array, dtype=float)
                 d = {tuple(int(x) for x in h): I[:, k] for k, h in enumerate(b1.hkl)}
+                row = E[i, j] if series_y else E[i]
                 for k, h in enumerate(hkl):
-                    worst = max(worst, float(np.abs(E[i, j, :, k] - d.get(h, np.zeros(len(ts)))).max()))
-        if worst > 1e-5:
+                    worst = max(worst, float(np.abs(row[:, k] - d.get(h, np.zeros(len(ts)))).max()))
+                if not np.isfinite(I).all():
+                    worst = float("nan")
+        if exceeds(worst, 1e-5):
             ctx.violation("ensemble-member-differs-from-individual-run", case, {"max diff": worst})
 
     def _oracle(self, ctx: Ctx, case):
@@ -307,53 +378,62 @@ class C26(Property):
             ctx.violation("bloch-dynamical-call-raises", case, {"error": f"{type(e).__name__}: {e}"})
             return
         i0 = int(np.where((hkl == 0).all(axis=1))[0][0])
-        M = np.asarray(calculate_M_matrix(hkl, bw.cell, bw.energy), dtype=float)
+        # M is recomputed here from hkl, cell and energy alone; the code's own calculate_M_matrix must agree with it, and the
+        # reference (not the code's value) classifies the case and forms the weighted sum and the bounds
+        M, gz = m_reference(hkl, np.asarray(bw.cell), bw.energy)
+        M_code = np.asarray(calculate_M_matrix(hkl, bw.cell, bw.energy), dtype=float)
+        if exceeds(np.abs(M_code - M).max(), 1e-12):
+            ctx.violation("M-matrix-differs-from-1-over-sqrt-1-plus-gz-lambda", case, {"max diff": float(np.abs(M_code - M).max())})
+        zone_axis = bool(np.abs(gz).max() < 1e-12)
         tol = 3e-5 if case.get("precision", "float32") == "float32" else 1e-8
-        ctx.count("oracle:" + case.get("precision", "float32") + ":" + ("M=1" if np.abs(M - 1).max() < 1e-12 else "M≠1") + f":n<={10 * (n // 10 + 1)}")
+        ctx.count("oracle:" + case.get("precision", "float32") + ":" + ("M=1" if zone_axis else "M≠1") + f":n<={10 * (n // 10 + 1)}"
+                  + (":" + case["input"] if case.get("input") else ""))
         # structure matrix Hermitian
         A = np.asarray(bw.calculate_structure_matrix(lazy=False))
-        if np.abs(A - A.conj().T).max() > 2e-6 * max(np.abs(A).max(), 1e-30):
+        if exceeds(np.abs(A - A.conj().T).max(), 2e-6 * max(np.abs(A).max(), 1e-30)):
             ctx.violation("structure-matrix-not-hermitian", case, {"max |A - A^H|": float(np.abs(A - A.conj().T).max())})
         # zero thickness = direct beam
         for k, t in enumerate(ts):
             if t == 0.0:
                 e0 = np.zeros(n)
                 e0[i0] = 1.0
-                if np.abs(I[k] - e0).max() > tol / 100:
+                if exceeds(np.abs(I[k] - e0).max(), tol / 100):
                     ctx.violation("zero-thickness-not-direct-beam", case, {"max deviation": float(np.abs(I[k] - e0).max())})
         # flux conservation
         w = (I / M ** 2).sum(axis=-1)
-        if np.abs(w - 1).max() > tol:
+        if exceeds(np.abs(w - 1).max(), tol):
             ctx.violation("flux-weighted-intensity-not-conserved", case, {"weighted sums": w.tolist()})
         s = I.sum(axis=-1)
-        if np.abs(M - 1).max() < 1e-12:
-            if np.abs(s - 1).max() > tol:
+        if zone_axis:
+            if exceeds(np.abs(s - 1).max(), tol):
                 ctx.violation("intensity-sum-not-one-on-zone-axis", case, {"sums": s.tolist()})
-        elif (s < (M ** 2).min() - tol).any() or (s > (M ** 2).max() + tol).any():
+        elif not ((s >= (M ** 2).min() - tol).all() and (s <= (M ** 2).max() + tol).all()):
             ctx.violation("intensity-sum-outside-flux-bounds", case, {"sums": s.tolist(), "M2 range": [float((M ** 2).min()), float((M ** 2).max())]})
-        elif np.abs(s - 1).max() > tol and np.abs(w - 1).max() <= tol:
+        elif exceeds(np.abs(s - 1).max(), tol) and np.abs(w - 1).max() <= tol:
             # recorded deviation from the statement: with g_z ≠ 0 reflections the flux-weighted sum is one (verified just above), the plain
-            # sum is not (it stays inside the proved [min M², max M²] bounds, verified above) — see plain_sum_not_conserved_counterexample
+            # sum is not (it stays inside the proved [min M², max M²] bounds, verified above) — see scatter_plain_sum_not_one_counterexample; M is the independent reference
             ctx.violation("plain-intensity-sum-differs-from-one-with-holz-or-tilt", case,
                           {"plain sums": s.tolist(), "flux-weighted sums": w.tolist(), "max |M-1|": float(np.abs(M - 1).max())})
         # reflection selection (filter_reciprocal_space_vectors), recomputed independently
-        from abtem.bloch.utils import get_reflection_condition
         from abtem.core.energy import energy2wavelength
 
         allh = np.asarray(bw.structure_factor.hkl)
         gall = allh @ np.linalg.inv(np.asarray(bw.cell)).T
         lam = energy2wavelength(bw.energy)
         sg_all = (-2 * gall[:, 2] - lam * (gall ** 2).sum(-1)) / 2
-        want = (np.abs(sg_all) <= case["sg_max"]) & (np.linalg.norm(gall, axis=1) <= bw.g_max) & \
-            np.asarray(get_reflection_condition(allh, bw._centering))
-        edge = (np.abs(np.abs(sg_all) - case["sg_max"]) < 1e-9) | (np.abs(np.linalg.norm(gall, axis=1) - bw.g_max) < 1e-9)
+        hh, kk, ll = allh[:, 0], allh[:, 1], allh[:, 2]
+        cent = {"P": np.ones(len(allh), bool), "I": (hh + kk + ll) % 2 == 0, "A": (kk + ll) % 2 == 0, "B": (hh + ll) % 2 == 0,
+                "C": (hh + kk) % 2 == 0, "F": ((hh % 2 == kk % 2) & (kk % 2 == ll % 2))}[bw._centering.upper()]  # International Tables
+        want = (np.abs(sg_all) <= case["sg_max"]) & (np.linalg.norm(gall, axis=1) <= bw.g_max) & cent
+        # only float rounding of the two recomputations is excused at a limit (the limits themselves are inclusive in the code)
+        edge = (np.abs(np.abs(sg_all) - case["sg_max"]) < 1e-13) | (np.abs(np.linalg.norm(gall, axis=1) - bw.g_max) < 1e-13)
         got = np.asarray(bw.hkl_mask)
         if ((want != got) & ~edge).any() or not got[(allh == 0).all(axis=1)].all():
             ctx.violation("reflection-selection-differs-from-sg-gmax-centering-rule", case, {"selected": int(got.sum()), "expected": int(want.sum())})
         # lazy = eager
         try:
             L = np.asarray(bw.calculate_diffraction_patterns(ts, lazy=True).compute().array, dtype=float)
-            if L.shape != I.shape or np.abs(L - I).max() > tol / 10:
+            if L.shape != I.shape or exceeds(np.abs(L - I).max(), tol / 10):
                 ctx.violation("lazy-differs-from-eager", case, {"max diff": float(np.abs(L - I).max()) if L.shape == I.shape else "shape"})
         except Exception as e:  # noqa
             ctx.violation("bloch-dynamical-lazy-call-raises", case, {"error": f"{type(e).__name__}: {e}"})
@@ -366,36 +446,46 @@ class C26(Property):
                     ctx.violation("scattering-matrix-call-raises", case, {"error": f"{type(e).__name__}: {e}"})
                     break
                 IS = np.abs(S[:, i0]) ** 2
-                if np.abs(IS - I[k]).max() > tol:
+                if exceeds(np.abs(IS - I[k]).max(), tol):
                     ctx.violation("expm-path-differs-from-eig-path", case, {"thickness": t, "max |I_expm - I_eig|": float(np.abs(IS - I[k]).max())})
                     break
         # scalar thickness = first row of the list result
         I1 = np.asarray(bw.calculate_diffraction_patterns(float(ts[-1]), lazy=False).array, dtype=float)
-        if I1.shape != (n,) or np.abs(I1 - I[-1]).max() > tol / 10:
+        if I1.shape != (n,) or exceeds(np.abs(I1 - I[-1]).max(), tol / 10):
             ctx.violation("scalar-thickness-differs-from-list", case, {"shape": list(I1.shape)})
 
     def gen(self, ctx: Ctx):
         rng = ctx.rng
-        name = rng.choice(["Si", "Cu", "Fe", "GaAs", "SrTiO3", "ortho"])
+        name = rng.choice(["Si", "Cu", "Fe", "GaAs", "SrTiO3", "ortho", "Mg", "graphite", "Ccentred", "Acentred", "Bcentred"])
         tilt = rng.choice(["none", "none", "small", "large"])
         rot = {"none": [0.0, 0.0], "small": [round(rng.uniform(-0.03, 0.03), 4), round(rng.uniform(-0.03, 0.03), 4)],
                "large": [round(rng.uniform(-0.3, 0.3), 3), round(rng.uniform(-0.3, 0.3), 3)]}[tilt]
         return dict(crystal=name, g_max=rng.choice([1.0, 1.5]), sigma=rng.choice([0.0, 0.08]), energy=rng.choice([60e3, 100e3, 200e3, 300e3]),
-                    sg_max=rng.choice([0.05, 0.1, 0.3, 0.6]), rot=rot, precision=rng.choice(["float32", "float64", "float64"]), thicknesses=[0.0, rng.choice([10.0, 55.5]), rng.choice([200.0, 431.0])])
+                    sg_max=rng.choice([0.05, 0.1, 0.3, 0.6]), rot=rot, precision=rng.choice(["float32", "float64", "float64"]),
+                    **({"input": rng.choice(["array-lazy", "array-eager"])} if rng.random() < 0.25 else {}), thicknesses=[0.0, rng.choice([10.0, 55.5]), rng.choice([200.0, 431.0])])
 
     def conformance(self, ctx: Ctx):
-        for _ in range(ctx.n(14, 150)):
+        for _ in range(ctx.n(10, 150)):
             case = self.gen(ctx)
             self.oracle(ctx, case)
             ctx.case(case)
         rng = ctx.rng
-        for _ in range(ctx.n(5, 30)):
+        for _i in range(ctx.n(6, 42)):
             case = dict(check="ensemble", crystal=rng.choice(["Si", "Cu", "SrTiO3"]), g_max=1.0, sigma=0.08, energy=rng.choice([100e3, 200e3]),
                         sg_max=rng.choice([0.05, 0.1]), precision="float32", thicknesses=[0.0, rng.choice([40.0, 120.0])],
                         rx=[0.0] + [round(rng.uniform(-0.03, 0.03), 4) for _ in range(rng.randint(1, 2))],
                         ry=[round(rng.uniform(-0.03, 0.03), 4) for _ in range(rng.randint(1, 2))])
+            variant = ["fixed-y", "sg-edge", "series", "array-lazy", "array-eager", "series"][_i % 6]  # every variant in every run
+            if variant == "fixed-y":
+                case["ry"] = round(rng.uniform(-0.03, 0.03), 4)
+            elif variant == "sg-edge":
+                case["sg_edge"] = True
+                case["rx"][0] = 0.0
+                case["ry"] = [0.0] + case["ry"][1:]  # member (0, 0) is the unrotated crystal, for which sg_max sits exactly on |s_g|
+            elif variant.startswith("array"):
+                case["input"] = variant
             self.oracle(ctx, case)
-            ctx.count("ensemble")
+            ctx.count("ensemble:" + variant)
             ctx.case(case)
 
     def replay(self, ctx: Ctx, case):
